@@ -111,6 +111,24 @@ func render(s *jen.Statement) ([]string, error) {
 	return toks[2:], nil
 }
 
+// selfContained reports whether s can be reached from itself through *Statement items.
+func selfContained(s *jen.Statement, onPath map[*jen.Statement]bool) bool {
+	if s == nil {
+		return false
+	}
+	if onPath[s] {
+		return true
+	}
+	onPath[s] = true
+	defer delete(onPath, s)
+	for _, c := range *s {
+		if st, ok := c.(*jen.Statement); ok && selfContained(st, onPath) {
+			return true
+		}
+	}
+	return false
+}
+
 func scanLine(line string) ([]string, error) {
 	src := []byte(line)
 	fs := token.NewFileSet()
@@ -295,6 +313,13 @@ func check(c Case) error {
 		return out, nil
 	}
 	verify := func(step int, what string) error {
+		// the history never adds a statement to something that shows it; if the objects now form a cycle
+		// all the same (two statements sharing storage), rendering would recurse without end
+		for i, x := range list {
+			if selfContained(x.s, map[*jen.Statement]bool{}) {
+				return fmt.Errorf("step %d (%s): statement %d now contains itself although nothing it shows was ever added to it: storage is shared between statements", step, what, i)
+			}
+		}
 		{
 			lines, err := renderAll()
 			if err != nil {
